@@ -84,7 +84,9 @@ def h_tables(ctx: Ctx, cfg):
         rd = g.distanceToTerminal.get(s)
         ctx.require(rd == a.min_depth[s], _depth_clause(rd, s, a, a_ne), {"symbol": s.__name__, "reported": rd, "shallowest": a.min_depth[s]})
         ctx.require((s in g.recursive_prods) == (s in a.recursive), "analysis:recursive-set-wrong", {"symbol": s.__name__, "reported": s in g.recursive_prods, "derives_itself": s in a.recursive})
-    ctx.require(g.get_min_tree_depth() == a.min_depth[fx.START], "analysis:grammar-minimum-depth-wrong")
+    gm = g.get_min_tree_depth()
+    gclause = _depth_clause(gm, fx.START, a, a_ne)  # the start symbol inherits the listed inexactness
+    ctx.require(gm == a.min_depth[fx.START], gclause if gclause.endswith("possibly-empty-list") else "analysis:grammar-minimum-depth-wrong", {"reported": gm, "shallowest": a.min_depth[fx.START]})
 
 
 def h_usable(ctx: Ctx, cfg):
@@ -259,7 +261,7 @@ def h_family(ctx: Ctx, cfg):
 
 HARNESSES = {"family": h_family, "shipped": h_shipped, "tables": h_tables, "usable": h_usable, "min_depth_lower_bound": h_min_depth_lower_bound, "min_depth_witness": h_min_depth_witness, "recursion": h_recursion}
 
-CORPUS = [("f14", None), ("f11", None), ("f12", None), ("f13", None), ("f9", None), ("f10", None), ("f3n", None), ("f8", None), ("f0", None), ("f1", None), ("f2", None), ("f2b", None), ("f3", None), ("f3b", None), ("f4", None), ("f5", None), ("f5ctx", None), ("f6", None),
+CORPUS = [("f15", None), ("f14", None), ("f11", None), ("f12", None), ("f13", None), ("f9", None), ("f10", None), ("f3n", None), ("f8", None), ("f0", None), ("f1", None), ("f2", None), ("f2b", None), ("f3", None), ("f3b", None), ("f4", None), ("f5", None), ("f5ctx", None), ("f6", None),
           ("f7", "grammar_tuple"), ("f7", "grammar_tuple2"), ("f7", "grammar_union"), ("f7", "grammar_list"), ("f7", "grammar_mutual")]
 
 
